@@ -51,7 +51,10 @@ use futures::stream::{Stream};
 use futures::task;
 use futures::task::{Poll, Context};
 
+#[cfg(not(desync_verif))]
 use std::sync::*;
+#[cfg(desync_verif)]
+use crate::vsched::sync::*;
 use std::pin::{Pin};
 use std::collections::VecDeque;
 
